@@ -170,3 +170,41 @@ def write_records(mx, records, output_chunk_size=2 ** 16, set_identifier='MAIN-S
         with contextlib.suppress(OSError):
             os.remove(path)
     return run
+
+
+def rewrite(run, later_ops=(), keep_file=False, want_taps=True, data='__auto__', **write_override):
+    """Second (third ...) write of the SAME DLISFile after applying `later_ops` (assign / setattr / new objects) through
+    the public API.  Returns a new oracle.Run whose spec is the specification in its current state (base ops + later
+    ops, in order), so every oracle judges the new file against what is specified NOW."""
+    import copy
+    from . import spec as S, oracle
+    sp = copy.deepcopy(run.spec)
+    b = run.built
+    source = sp.get('write', {}).get('source', 'inline')
+    with capture_logs() as logs:
+        for op in later_ops:
+            i = len(sp['ops'])
+            sp['ops'].append(copy.deepcopy(op))
+            try:
+                S.run_op(b, i, op, source)
+                b.outcomes.append(('ok',))
+            except S.HarnessError:
+                raise
+            except Exception as e:  # noqa
+                b.outcomes.append(('exc', type(e).__name__, str(e)[:300]))
+        sp['write'] = dict(sp.get('write', {}))
+        sp['write'].update(write_override)
+        path = fresh_path()
+        taps = Taps()
+        with taps:
+            wout = S.do_write(sp, b, path, scratch_dir(), data=data)
+    fdata = None
+    if wout[0] == 'ok':
+        with open(path, 'rb') as f:
+            fdata = f.read()
+    new = oracle.Run(sp, b, wout, fdata, taps.lr if want_taps else None, taps.flush, list(logs))
+    new.path = path
+    if not keep_file:
+        with contextlib.suppress(OSError):
+            os.remove(path)
+    return new
